@@ -61,3 +61,34 @@ Lemma fam_distinct :
   K_commit <> K_ack /\ K_commit <> K_receipt /\ K_ack <> K_receipt /\
   K_clean <> K_maxack /\ K_clean <> K_nextsend /\ K_maxack <> K_nextsend.
 Proof. repeat split; intros E; apply beq_spec in E; vm_compute in E; discriminate. Qed.
+
+(** * cross-family disjointness (no assumption on the chain names) *)
+
+Lemma path_cons2 fam x rest : path (fam :: x :: rest) = fam ++ slash :: path (x :: rest).
+Proof. reflexivity. Qed.
+
+Lemma path_fam_inj fam fam' x rest x' rest' :
+  noslash fam -> noslash fam' ->
+  path (fam :: x :: rest) = path (fam' :: x' :: rest') -> fam = fam'.
+Proof.
+  intros Hf Hf' E. rewrite !path_cons2 in E.
+  apply join2_inj in E; [tauto | exact Hf | exact Hf'].
+Qed.
+
+Definition key_fam (k : bytes) : bytes := hd [] (split slash k).
+
+Lemma key_fam_path fam x rest : noslash fam -> key_fam (path (fam :: x :: rest)) = fam.
+Proof.
+  intros Hf. unfold key_fam. rewrite path_cons2. rewrite split_app by exact Hf. reflexivity.
+Qed.
+
+Lemma fam_ne_key_ne k k' : key_fam k <> key_fam k' -> k <> k'.
+Proof. intros H E. subst. apply H. reflexivity. Qed.
+
+(** * big-endian counters *)
+
+Lemma be_aux_acc w : forall n acc, be_aux w n acc = be_aux w n [] ++ acc.
+Proof.
+  induction w as [|w IH]; intros n acc; cbn [be_aux]; [reflexivity|].
+  rewrite IH. rewrite (IH _ [_]). rewrite <- app_assoc. reflexivity.
+Qed.
